@@ -21,6 +21,7 @@ EXPLANATION = (
     "EVM table; duck-typed slice() receivers agree on parameter meaning; scanner and decoder use "
     "the same concreteness predicate. It does not decide ByteVec chunk arithmetic (values)."
     " Also decided: the concrete fast prefix is exactly the first concrete chunk's bytes (never its backing buffer); raw slices of it are guarded to end inside it, through local aliases too; and the jump arms' advance(pc=...) operands (shared with C01 R01.3)."
+    ' Round 5: jump-target candidates are kept unless the solver says unsat (C02 R02.1 at SEVM.run / jumpi).'
 )
 ASSUMPTIONS = [
     "no monkey-patching of Contract / Instruction at run time (checked by meta-rule in C20 R20.4)",
